@@ -132,6 +132,24 @@ def scalar_forms(k):
             if (is_flt and k2 in INTS + ['bool']) or (k2 in FLTS and k in ('uint', 'ulong')):
                 src = 'b'           # small positive values only: every such conversion is defined and exact
             ex(f'cast_{k2}', f'({TYPES[k2][0]}){src}')
+        # value-dependent conversion sequences (branches inside the cast strings: `test; js`, compare against 2^63, ...):
+        # boundary operand values, all with defined behaviour (6.3.1.4: the truncated value is representable)
+        if is_flt:
+            sfx = {'float': 'f', 'double': '', 'ldouble': 'L'}[k]
+            for nm, val, targets in (('p63', '9223372036854775808.0', ('ulong',)), ('p64m', '18000000000000000000.0', ('ulong',)),
+                                     ('neghalf', '-0.75', ('ulong', 'long', 'uint', 'int', 'uchar', 'bool')),
+                                     ('p32', '4294967040.0', ('ulong', 'long', 'uint')), ('p31', '2147483648.0', ('ulong', 'long', 'uint')),
+                                     ('m63', '-9223372036854775808.0', ('long',))):
+                for k2 in targets:
+                    ex(f'castv_{k2}_{nm}', f'a = {val}{sfx}, ({TYPES[k2][0]})a')
+        if k in ('ulong', 'long', 'uint', 'int'):
+            vals = {'ulong': (('top', '0x8000000000000000UL'), ('max', '0xffffffffffffffffUL'), ('odd', '0x8000000000000401UL'), ('zero', '0UL')),
+                    'long': (('min', '(-0x7fffffffffffffffL - 1)'), ('m1', '-1L')),
+                    'uint': (('top', '0x80000000u'), ('max', '0xffffffffu')),
+                    'int': (('min', '(-0x7fffffff - 1)'), ('m1', '-1'))}[k]
+            for nm, val in vals:
+                for k2 in FLTS:
+                    ex(f'castv_{k2}_{nm}', f'a = {val}, ({TYPES[k2][0]})a')
         ex('addsub_nested', '(a + b) - (a - (b + (a - b)))') if k != 'bool' else None
         ex('cmp_nested', '(a < b) + (a + b > b) + ((a, b) == b)')
         ex('deref', '*pa')
